@@ -90,6 +90,13 @@ POLLUTERS = [
     "G.PI = 3; G.max = null; G.parse = 1; G.keys = 2; G.isArray = 3; G.fromCharCode = 4; delete G.min; delete G.stringify; } catch (e) {} } 1;" % json.dumps(GLOBAL_NAMES),
     "Math.random = function () { return 0.5; }; Math.clamp = function (x) { return x; }; parseInt = function () { return -1; }; undefined = 1; NaN = 2; Infinity = 3; 1;",
     "var s = ''; for (var j = 0; j < 200; j++) { s += String.fromCharCode(65 + j % 26); } s.split('').sort().join('');",
+    # operations that fail half-way through a traversal or a search because a resource runs out (caught and uncaught): whatever
+    # process-wide bookkeeping they keep must not outlive them
+    "var top = [7]; for (var di = 0; di < 3000; di++) { top = [top]; } try { String(top); } catch (e) { } try { top.join('-'); } catch (e2) { } var held = []; for (var q = 0; q < 600; q++) { held.push([q]); } 1;",
+    "var deep = [1]; for (var dk = 0; dk < 3000; dk++) { deep = [deep, 2]; } deep + '';",
+    "var dob = {v: 1}; for (var dn = 0; dn < 3000; dn++) { dob = {k: dob}; } try { JSON.stringify(dob); } catch (e) { } var cyc = {}; cyc.self = cyc; try { JSON.stringify(cyc); } catch (e3) { } 1;",
+    "function drec(n) { return drec(n + 1) + 1; } try { drec(0); } catch (e) { } try { [1].map(function f() { return [2].map(f); }); } catch (e4) { } 1;",
+    "var t = ''; for (var dp = 0; dp < 3000; dp++) { t += '['; } try { JSON.parse(t); } catch (e) { } try { (0, eval)(t); } catch (e5) { } try { new RegExp(t.replace(/\\[/g, '(')); } catch (e6) { } 1;",
 ]
 
 
@@ -167,6 +174,11 @@ def main(ctx):
     progs = []
     for i in range(150 if ctx.quick else 3000):
         progs.append(key_order_program(fixed if i % 2 == 0 else rng))
+    for i in range(12 if ctx.quick else 120):
+        r_ = fixed if i % 2 == 0 else rng
+        n_ = r_.randint(200, 900)
+        progs.append("var out = []; for (var i = 0; i < %d; i++) { var a = [i, [i %% 7, 'x'], i * 2]; out.push(a.join('-') + '|' + String([a, a]) + '|' + ([a] + '').length); } "
+                     "var bad = 0; for (var j = 0; j < out.length; j++) { if (out[j].indexOf(j + '-') !== 0) { bad++; } } log(bad, out.length, out[%d]); 'done'" % (n_, r_.randint(0, 150)))
     from checks import C08 as _c08
     for i in range(40 if ctx.quick else 600):
         progs.append(_c08.history(fixed if i % 2 == 0 else rng, 10, avoid=("fn-receiver",)))
